@@ -337,6 +337,24 @@ also('C08', 'integer bit weights are never cast to a floating dtype (PR1); the q
 also('C09', 'no floating-point linear algebra in the GF(2) modules (DT5); a NumPy bounded sampler never takes a bound derived from an arbitrary-precision group order (S5).')
 also('C10', 'a NumPy bounded sampler never takes a bound derived from an arbitrary-precision integer (S5: valid for every n, not only n <= 31).')
 
+# ---- clauses added with the second half of the round-4 rules
+also('C11', 'a parameter that may be the bare integer 0 is never tested by truthiness (TR1); every arm of the kind dispatch of Circuit.apply_state applies its gate '
+            'unconditionally and the measurement record is written by MeasureGate only (D7).')
+also('C12', 'a buffer typed after an input never receives an imaginary-literal value outside a dtype-guarded branch (DT9); the probe loops of hf_channel_to_choi_op / '
+            '_kraus_op cover all matrix units (CH1); the apply_* functions never conjugate a rho-derived value (LN1); no entr of a raw spectrum / sqrtm in numqi.utils (F7, F6).')
+also('C13', 'no closed-form measure is snapped to zero inside a tolerance window (ZS1); no convex-roof forward uses a smoothed root that lies below sqrt(x) (V4).')
+also('C14', 'no complex-aware function of the group modules forces an input-derived array to a real dtype (DT8); exact combinatorics never goes through np.prod (OV1).')
+also('C15', 'no function returns one array under two output names (AL4); the gimbal tolerance is compared with the angle beta only (AG6).')
+also('C16', 'an in-place operation on a VIEW of the cached Gell-Mann basis is reported like one on the basis itself (O1); Ellipsis-addressed arrays are reduced along negative '
+            'axes (AX2); a buffer typed after the input never receives the imaginary antisymmetric coefficients (DT9).')
+also('C17', 'subsystem index 0 is never treated as "not given" (TR1); partial_trace and partial_trace_ABk_to_AB never re-normalise by a data-dependent trace (NR1); occupation '
+            'tuples are never keyed with radix dim (MR2).')
+also('C18', 'no entr of a raw spectrum in numqi.utils / the state catalogue (F7: the closed-form REE stays finite at alpha = 1).')
+also('C19', 'no in-place method is called on a copy.copy of a circuit (AL5); Circuit.num_qubit is never asserted equal to a register size (NQ1); the ceiling-division idiom is '
+            'not used with a divisor that may be fractional (CE1).')
+also('C20', 'memo keys of index selections are never frozensets (FS1); a plain reshape of a tripartite tensor groups adjacent subsystems in ascending order (AR4); one function '
+            'never cuts singular values and Gram eigenvalues at the same tolerance (T4).')
+
 for _p in sorted(CLAIMS):
     also(_p, 'no function outside the reviewed set of 24 memoised functions is decorated with lru_cache / cache (or keeps a module-level memo) while returning an unfrozen '
              'NumPy / torch object (MC3: no new shared mutable result in the modules of this property; package-wide in the thorough tier); no function of those modules writes in place into (a view of) an '
